@@ -60,12 +60,23 @@ Menu == <<
   Ext("Node", Ifc("Node", <<Fld("next", Named("Node"), <<>>, ""), Fld("pick", Named("Int"), <<Arg("from", Named("Node2In"))>>, "")>>)),  \* 33 extension fields typed by types of the document (needs 34)
   Def(Inp("Node2In", <<ArgD("x", Named("Int"))>>)),                                                         \* 34
   Ext("In2", Inp("In2", <<Arg("me", Named("In2")), Arg("peers", ListOf(NN(Named("In2"))))>>)),                 \* 35 extension fields typed by the extended input type itself
-  Ext("Query", Obj("Query", <<>>, <<Fld("lv", Named("Int"), <<ArgL("e", Named("E"), "C")>>, "")>>))              \* 36 a default naming an enum value that only an extension (14) declares
+  Ext("Query", Obj("Query", <<>>, <<Fld("lv", Named("Int"), <<ArgL("e", Named("E"), "C")>>, "")>>)),             \* 36 a default naming an enum value that only an extension (14) declares
+  Def(Obj("UsesE", <<>>, <<Fld("lvl", Named("E"), <<>>, ""), Fld("sc", Named("S"), <<>>, "")>>)),                \* 37 a DEFINITION referring to the enum (5) and the scalar (8)
+  \* 38-41: covariant implementations of a list-typed interface field
+  Def(Ifc("HasList", <<Fld("tags", ListOf(Named("String")), <<>>, "")>>)),                                     \* 38
+  Def(Obj("ListNN", <<"HasList">>, <<Fld("tags", NN(ListOf(Named("String"))), <<>>, "")>>)),                    \* 39 [String]! for [String]: valid
+  Def(Obj("ListItemNN", <<"HasList">>, <<Fld("tags", ListOf(NN(Named("String"))), <<>>, "")>>)),                \* 40 [String!] for [String]: valid
+  Def(Obj("ListBad", <<"HasList">>, <<Fld("tags", Named("String"), <<>>, "")>>)),                               \* 41 String for [String]: invalid
+  \* 42-44: extension blocks of one target separated by a block of another target (needs 9)
+  Ext("Root", Obj("Root", <<>>, <<Fld("r1", Named("Int"), <<>>, "")>>)),                                        \* 42
+  Ext("Query", Obj("Query", <<>>, <<Fld("p1", Named("Int"), <<>>, "")>>)),                                      \* 43
+  Ext("Query", Obj("Query", <<>>, <<Fld("p2", Named("Int"), <<>>, "")>>))                                       \* 44
 >>
+CONSTANT MenuIdx        \* the menu items that may be picked (the whole menu, or a focus on a few items with a larger MaxItems)
 VARIABLES picked, done
 Init == picked = <<1>> /\ done = FALSE          \* Query type always present
 Pick == /\ ~done /\ Len(picked) < MaxItems
-        /\ \E i \in 2..Len(Menu) : (\A j \in 1..Len(picked) : picked[j] # i) /\ picked' = Append(picked, i)
+        /\ \E i \in (2..Len(Menu)) \cap MenuIdx : (\A j \in 1..Len(picked) : picked[j] # i) /\ picked' = Append(picked, i)
         /\ UNCHANGED done
 \* the first item may also be moved: choose an insertion position for the Query definition at the end
 Finish == /\ ~done /\ done' = TRUE /\ \E pos \in 1..Len(picked) : picked' = [i \in 1..Len(picked) |-> IF i < pos THEN picked[i + 1] ELSE IF i = pos THEN 1 ELSE picked[i]]
@@ -99,6 +110,17 @@ Build(doc) ==
                         /\ (merged[i].k # "input" => \A a \in 1..Len(merged[i].fields[f].args) : known(Inner(merged[i].fields[f].args[a].type)))
                    /\ \A m \in 1..Len(merged[i].members) : known(merged[i].members[m])
                    /\ \A m \in 1..Len(merged[i].ifaces) : known(merged[i].ifaces[m])
+      \* covariance of field types (3.1.2 Object type validation): same named type, an implementation of the interface or a member
+      \* of the union, a list of a subtype, or the non-null version of a subtype
+      RECURSIVE SubT(_, _)
+      SubT(a, b) == IF b.k = "nn" THEN a.k = "nn" /\ SubT(a.of, b.of)
+                    ELSE IF a.k = "nn" THEN SubT(a.of, b)
+                    ELSE IF b.k = "list" THEN a.k = "list" /\ SubT(a.of, b.of)
+                    ELSE IF a.k = "list" THEN FALSE
+                    ELSE \/ a.n = b.n
+                         \/ (known(a.n) /\ known(b.n) /\ a.n \notin Builtin /\ b.n \notin Builtin /\
+                              \/ (byName(b.n).k = "interface" /\ byName(a.n).k = "object" /\ \E m \in 1..Len(byName(a.n).ifaces) : byName(a.n).ifaces[m] = b.n)
+                              \/ (byName(b.n).k = "union" /\ \E m \in 1..Len(byName(b.n).members) : byName(b.n).members[m] = a.n))
       extErr == \/ \E x \in 1..Len(xs) : xs[x].target \notin tnames \/ byName(xs[x].target).k # xs[x].t.k
                 \/ \E i \in 1..Len(merged) : Dup([f \in 1..Len(merged[i].fields) |-> merged[i].fields[f].name])
                                              \/ Dup(merged[i].members) \/ Dup(merged[i].ifaces) \/ Dup([v \in 1..Len(merged[i].values) |-> merged[i].values[v].name])
@@ -106,7 +128,7 @@ Build(doc) ==
                    \A m \in 1..Len(merged[i].ifaces) :
                       LET itf == byName(merged[i].ifaces[m]) IN
                       itf.k = "interface" /\ \A f \in 1..Len(itf.fields) : \E g \in 1..Len(merged[i].fields) :
-                          /\ merged[i].fields[g].name = itf.fields[f].name /\ merged[i].fields[g].type = itf.fields[f].type
+                          /\ merged[i].fields[g].name = itf.fields[f].name /\ SubT(merged[i].fields[g].type, itf.fields[f].type)
                           \* every interface argument is provided with the SAME type; additional arguments must not be required
                           /\ \A a \in 1..Len(itf.fields[f].args) : \E b \in 1..Len(merged[i].fields[g].args) :
                                 merged[i].fields[g].args[b].name = itf.fields[f].args[a].name /\ merged[i].fields[g].args[b].type = itf.fields[f].args[a].type
